@@ -453,7 +453,14 @@ def gen_c07(r, knobs=None):
         elif name_mode:
             # name mode under its documented contract (A4): no context, config names fixed per rendering
             root = r.choice(plain_roots)
-            live = [b.build(root, {'form': r.choice(['mem', 'json'] if not world.get('no_json') else ['mem', 'yaml']), 'name_suffix': r.choice(['', '_v2'])}, pmode=False)]
+            live = [b.build(root, {'form': r.choice(['mem', 'json'] if not world.get('no_json') else ['mem', 'yaml']), 'name_suffix': ''}, pmode=False)]
+            if r.random() < 0.7:
+                # a second config set whose names extend the first one's (cfg1 / cfg1_v2 / cfg10): separate results side by side
+                other = b.build(root, {'form': 'mem', 'name_suffix': r.choice(['_v2', '0', '.bak'])}, pmode=False)
+                for n in b.names(other):
+                    if r.random() < 0.8:
+                        b.req(other, n)
+                live.append(other)
         else:
             live = [b.build(root, b.render(rich=r.random() < 0.4))]
         # populate part of the store
